@@ -161,35 +161,36 @@ func c17Copy(c *Ctx, rel string) {
 		nz := plainEdges(edgesMatching(hb, "bin<!=>("+bigSign+"(p0), 0)", "bin<!=>("+bigSign+"(p1), 0)"))
 		zz := edgesMatching(hb, "bin<==>("+bigSign+"(p0), 0)", "bin<==>("+bigSign+"(p1), 0)")
 		ok := len(nz) == 2 && len(zz) == 2
-		sets := ana.CallsTo(zHelper, "(*math/big.Int).SetInt64", "(*math/big.Int).SetUint64")
-		ok = ok && len(sets) == 1
-		if ok {
-			t := hb.CallTermAt(sets[0])
-			_, m := ana.Match("call<*>(alloc<math/big.Int>, 1)", t)
-			ok = m && mustPass(zHelper, sets[0].Block(), nz)
-		}
+		both := true
+		// per exit: a definite 1 only behind a non-zero test, a bare fresh 0 only behind both zero tests; the single-exit
+		// form `z := new(big.Int); if x != 0 || y != 0 { z.SetInt64(1) }; return z` has a conditional event instead
+		zx := plainEdges(edgesMatching(hb, "bin<==>("+bigSign+"(p0), 0)"))
+		zy := plainEdges(edgesMatching(hb, "bin<==>("+bigSign+"(p1), 0)"))
+		nExit := 0
 		for _, e := range ana.Exits(zHelper) {
 			if e.Panic {
 				ok = false
 				continue
 			}
+			nExit++
 			t := hb.Of(e.Results[0], e.Instr)
-			_, m := ana.Match("obj(alloc<math/big.Int>, maybe(call<(*math/big.Int).SetInt64>(self, 1)))", t)
-			// the return must be reachable without the SetInt64 only through both ==0 edges
-			avoid := ana.ReachableAvoiding(zHelper, append(append([]ana.Edge{}, nz...)))
-			_ = avoid
-			ok = ok && m
+			blk := e.Instr.Block()
+			switch {
+			case matches("call<math/big.NewInt>(1)", t): // also the canonical form of new(big.Int).SetInt64(1)
+				ok = ok && mustPass(zHelper, blk, nz)
+			case t.String() == "alloc<math/big.Int>":
+				ok = ok && mustPass(zHelper, blk, zx) && mustPass(zHelper, blk, zy)
+			case matches("obj(alloc<math/big.Int>, maybe(call<(*math/big.Int).SetInt64>(self, 1)))", t):
+				sets := ana.CallsTo(zHelper, "(*math/big.Int).SetInt64", "(*math/big.Int).SetUint64")
+				ok = ok && len(sets) == 1 && mustPass(zHelper, sets[0].Block(), nz)
+				// the zero path: the return is reachable while avoiding the non-zero edges only through both ==0 edges
+				reach := ana.ReachableAvoiding(zHelper, nz)
+				both = both && reach[blk] && mustPass(zHelper, blk, append(append([]ana.Edge{}, nz...), zx...)) && mustPass(zHelper, blk, append(append([]ana.Edge{}, nz...), zy...))
+			default:
+				ok = false
+			}
 		}
-		// the zero path: return reachable while avoiding the non-zero edges requires both ==0 edges
-		both := true
-		for _, ce := range zz {
-			_ = ce
-		}
-		if ok {
-			ret := ana.Exits(zHelper)[0].Instr.Block()
-			reach := ana.ReachableAvoiding(zHelper, nz)
-			both = reach[ret] && mustPass(zHelper, ret, append(nz, plainEdges(zz)[0])) && mustPass(zHelper, ret, append(nz, plainEdges(zz)[1]))
-		}
+		ok = ok && nExit >= 1
 		r.Check(ok && both, K("C17.identity-entry.helper"), c.P.Pos(zHelper.Pos()), "z(x,y) = fresh 0, set to 1 iff x.Sign()!=0 or y.Sign()!=0 (so z=0 exactly for (0,0))")
 	}
 
